@@ -26,7 +26,7 @@ type c12params struct {
 }
 
 func init() {
-	report.Register("C12", report.Check{Level: "model_checking", QuickBudget: 150 * time.Second, ThoroughBudget: 40 * time.Minute, Run: runC12})
+	report.Register("C12", report.Check{Level: "model_checking", QuickBudget: 240 * time.Second, ThoroughBudget: 25 * time.Minute, Run: runC12})
 	explore.Register("C12.will", func(p string) explore.Harness {
 		var pr c12params
 		json.Unmarshal([]byte(p), &pr)
